@@ -20,6 +20,7 @@ results are compared with those of a fresh process, and after every call the obs
 productions) are compared with what the caller last set (harness/props/c06.py).
 -/
 import CssVerif.Proofs.SetterIR
+import CssVerif.Proofs.SaveStack
 import CssVerif.Gen.Globals
 namespace CssVerif.C06
 open CssVerif.SetterIR
@@ -56,5 +57,130 @@ object was made rather than at entry, which the translator does not recognise as
 theorem snapshot_shapes :
     ¬ Clean (.seq (.store 0) (.seq .raise_ (.restore [0]))) ∧ ¬ Clean (.seq (.store 0) (.seq .raise_ (.store 0))) ∧
     Clean (.seq (.store 0) (.tryFinally .raise_ (.restore [0]))) := by decide
+
+end CssVerif.C06
+
+/-!
+### Re-entrant parses: the caller's value is kept per call (Model/SaveStack.lean)
+
+`temporaries_clean` looks at one call: set, work, put back in a `finally`.  What is put back is what the parser
+remembered at entry, and a parse can be re-entered — the fetcher called for an @import may call
+parseString/parseStyle of the very same parser object, or of other parser objects, to any depth.  The theorems
+below are about ALL well-nested histories of `enter p` / `exit p` events (any length, any depth, any number of
+parser objects, any parse-time values `pv`), from any state of the flag and of the parsers' memories.
+
+Exceptions need no separate treatment: the exit code stands in a `finally`, so `exit p` has happened by the time
+control is back at the caller whether the body returned or raised; a call that raised and a call that returned
+are the same history.
+
+Well-nestedness is the decidable `WellNested` (checker `openAfter`: every exit closes the innermost open call,
+which must be of the same parser; calls of different parsers, or of the same parser, may nest in each other;
+`set v` — the caller assigns the flag — at top level only), equivalently the grammar `History` / `Calls`
+(`nested_checker_iff_grammar`).
+-/
+namespace CssVerif.C06
+open CssVerif.SaveStack
+
+/-- the checker and the grammar describe the same histories -/
+theorem nested_checker_iff_grammar (h : List Ev) :
+    (WellNested h ↔ History h) ∧ (Calls h ↔ WellNested h ∧ ∀ v, Ev.set v ∉ h) :=
+  ⟨wellNested_iff_history h,
+   fun hc => ⟨history_wellNested (calls_history hc), calls_no_set hc⟩,
+   fun hw => history_calls ((wellNested_iff_history h).1 hw.1) hw.2⟩
+
+/-- (a) Stack discipline: a complete well-nested sequence of calls, run from ANY state, leaves the flag and every
+parser's memory exactly as they were.  (Because the start state is arbitrary the statement composes: it is its
+own induction hypothesis for the calls nested inside a call and for the calls that follow it.) -/
+theorem stack_restores (pv : Nat → Bool) (s : StackState) (h : List Ev) (hc : Calls h) :
+    (runStack pv s h).flag = s.flag ∧ (runStack pv s h).mem = s.mem := by
+  rw [calls_run pv hc s]; exact ⟨rfl, rfl⟩
+
+/-- (a), with the caller's assignments between the calls: after the history the flag is exactly what the caller
+last set (the initial value if the caller set nothing), and every parser's memory is as it was. -/
+theorem stack_caller_last_set (pv : Nat → Bool) (s : StackState) (h : List Ev) (hw : WellNested h) :
+    (runStack pv s h).flag = lastSet s.flag h ∧ (runStack pv s h).mem = s.mem := by
+  have := stack_master pv s h [] s.flag [] hw
+  rw [opened_nil_self] at this
+  rw [this]; exact ⟨rfl, rfl⟩
+
+/-- the whole state at every moment of a well-nested history: if the calls `stk` (innermost first) are open after
+`h`, the state is the one reached from the start state, with the flag the caller last set, by entering `stk` -/
+theorem stack_state_at (pv : Nat → Bool) (s : StackState) (h : List Ev) (stk : List Nat) (ho : OpenAfter h stk) :
+    runStack pv s h = opened pv s (lastSet s.flag h) stk := by
+  have := stack_master pv s h [] s.flag stk ho
+  rwa [opened_nil_self] at this
+
+/-- (b) during a call of p — after `enter p` and any complete calls nested in it, whatever happened before — the
+flag is p's parse-time value -/
+theorem stack_inside (pv : Nat → Bool) (s : StackState) (pre inner : List Ev) (p : Nat) (hc : Calls inner) :
+    (runStack pv s (pre ++ .enter p :: inner)).flag = pv p := by
+  rw [runStack_append]
+  show (runStack pv (stepStack pv _ (.enter p)) inner).flag = pv p
+  rw [calls_run pv hc]; rfl
+
+/-- (b), at every moment of a well-nested history: the flag is the parse-time value of the innermost active
+parser; what the caller last set if no call is active -/
+theorem stack_flag_at (pv : Nat → Bool) (s : StackState) (h : List Ev) (stk : List Nat) (ho : OpenAfter h stk) :
+    (runStack pv s h).flag = match stk with
+      | [] => lastSet s.flag h
+      | p :: _ => pv p := by
+  rw [stack_state_at pv s h stk ho, opened_flag]
+  cases stk <;> rfl
+
+/-- (c) the Slot discipline (one remembered value per parser, the code before the repair) is wrong under
+re-entry: the caller has set True, the parser's parse-time value is False, the fetcher parses with the same
+parser; afterwards the flag is False.  The Stack discipline gives True on the same history. -/
+theorem slot_wrong :
+    WellNested [.enter 0, .enter 0, .exit 0, .exit 0] ∧
+    (runSlot (fun _ => false) ⟨true, fun _ => true⟩ [.enter 0, .enter 0, .exit 0, .exit 0]).flag = false ∧
+    (runStack (fun _ => false) ⟨true, fun _ => []⟩ [.enter 0, .enter 0, .exit 0, .exit 0]).flag = true := by
+  decide
+
+/-- … for every parser, state and parse-time value: after a re-entered call the Slot discipline leaves the
+parse-time value in the flag, whatever the caller had set -/
+theorem slot_wrong_always (pv : Nat → Bool) (s : SlotState) (p : Nat) :
+    (runSlot pv s [.enter p, .enter p, .exit p, .exit p]).flag = pv p := by
+  simp [runSlot, stepSlot]
+
+/-- (c) what the old code got right: over a well-nested history in which no parser is entered while it is active
+(calls of DIFFERENT parsers may nest in each other to any depth) the Slot discipline, too, leaves the flag at what
+the caller last set — whatever the slots held at the start.  `slot_wrong` shows that the no-re-entry hypothesis
+cannot be dropped. -/
+theorem slot_restores_without_reentry (pv : Nat → Bool) (s : SlotState) (h : List Ev)
+    (hw : WellNestedNoReentry h) : (runSlot pv s h).flag = lastSet s.flag h :=
+  (slot_master pv h [] s.flag [] s hw rfl trivial).1
+
+/-- … and during the calls of such a history the flag is the innermost active parser's parse-time value -/
+theorem slot_flag_at_without_reentry (pv : Nat → Bool) (s : SlotState) (h : List Ev) (stk : List Nat)
+    (ho : openAfter true [] h = some stk) :
+    (runSlot pv s h).flag = match stk with
+      | [] => lastSet s.flag h
+      | p :: _ => pv p := by
+  rw [(slot_master pv h [] s.flag stk s ho rfl trivial).1]
+  cases stk <;> rfl
+
+/-- no re-entry is a restriction of well-nestedness -/
+theorem noReentry_wellNested (h : List Ev) (hw : WellNestedNoReentry h) : WellNested h :=
+  strict_open h [] [] hw
+
+/-! non-vacuity and necessity of the hypotheses -/
+
+/-- depth 4, two parsers, re-entrant (0 in 1 in 0, then 1 again inside), with assignments by the caller between
+the calls -/
+example : WellNested [.set true, .enter 0, .enter 1, .enter 0, .exit 0, .enter 0, .enter 1, .exit 1, .exit 0,
+    .exit 1, .exit 0, .set false, .enter 1, .exit 1] := by decide
+example : Calls [.enter 0, .enter 1, .enter 0, .exit 0, .enter 1, .exit 1, .exit 1, .exit 0, .enter 1, .exit 1] :=
+  (nested_checker_iff_grammar _).2.2 (by decide)
+/-- a moment inside: 0, 1, 0 open -/
+example : OpenAfter [.set true, .enter 0, .enter 1, .enter 0, .exit 0, .enter 0] [0, 1, 0] := by decide
+/-- depth 3 without re-entry (needs three parsers: with two, depth 3 means a re-entry) -/
+example : WellNestedNoReentry [.set true, .enter 0, .enter 1, .enter 2, .exit 2, .exit 1, .enter 2, .exit 2,
+    .exit 0, .set false, .enter 2, .enter 0, .exit 0, .exit 2] := by decide
+example : ¬ WellNestedNoReentry [.enter 0, .enter 1, .enter 0, .exit 0, .exit 1, .exit 0] := by decide
+/-- completeness is needed: an open call leaves the parse-time value … -/
+example : (runStack (fun _ => false) ⟨true, fun _ => []⟩ [.enter 0]).flag = false := by decide
+/-- … and nesting is needed: exits in the wrong order hand each parser the other's value -/
+example : (runStack (fun p => p == 1) ⟨true, fun _ => []⟩ [.enter 0, .enter 1, .exit 0, .exit 1]).flag = false ∧
+    ¬ WellNested [.enter 0, .enter 1, .exit 0, .exit 1] := by decide
 
 end CssVerif.C06
